@@ -47,6 +47,12 @@ def scenarios(tier):
             params["Name"] = "c1"
         parent = chain(("L", {"Type": "Task", "Resource": SFN + form, "Parameters": params, "ResultSelector": {"st.$": "$.Status", "out.$": "$.Output"}, "ResultPath": "$.child"}), Z)
         out.append(multi("crash-sync-child-%s" % nm, {"m": {"definition": parent}, "c": {"definition": child}}, [{"machine": "m", "name": "e1", "input": {"k": 1}}], family="crash-sync-child-%s" % nm))
+    # an asynchronous child launch (states:startExecution): the Task completes with the child's ARN as soon as the child's start event is out;
+    # a crash inside that handler (start event published, Task event not yet acknowledged) redelivers the Task event
+    parent = chain(("L", {"Type": "Task", "Resource": SFN + "startExecution", "Parameters": {"StateMachineArn": corpus.sm_arn("c"), "Input": {"from": "parent"}, "Name": "c1"},
+                          "ResultSelector": {"arn.$": "$.executionArn"}, "ResultPath": "$.child"}), Z)
+    out.append(multi("crash-async-child", {"m": {"definition": parent}, "c": {"definition": chain(("CZ", Pass(Result="done", ResultPath="$.z")))}},
+                     [{"machine": "m", "name": "e1", "input": {"k": 1}}], family="crash-async-child"))
     # a fan-out nested in a fan-out: after the restart an inner-level event can be handled before any outer-level event has rebuilt the outer join state
     # (quick: at most 2 deviations from the canonical order after the restart; thorough: closed)
     nb = 2 if tier == "quick" else None
